@@ -19,6 +19,11 @@ operations below. This file is the (hand-written, trusted) semantics of that sub
   permutation), so they hold for every order Go may choose.
 * external calls are fields of the `World`: the clock, the uuid generator.
 * `close(ch)` appends to an effect log that the function returns.
+* `map[*T]V` ↦ `Go.PMap T V` (pointer keys: the translated struct carries the object's identity in a field `addr__`); ranged over in
+  the order `w.ordP` (again arbitrary: `World.OrdPOk`).
+* `select { case ch <- v: A; default: B }` ↦ `if w.ready ch then (log the send (ch, v); A) else B`: whether a non-blocking send goes
+  through is decided by the environment at that instant; theorems quantify over `w.ready`.
+* `delete(m[a], b)` writes the inner map back with `Map.setIfPresent` (no entry for `a` appears when there was none, as in Go).
 -/
 
 namespace Go
